@@ -43,6 +43,7 @@ Definition apply_gate (p : cparams) (s : cstate) (g : gate) : cstate :=
 Definition run_gates (p : cparams) (gs : list gate) (s : cstate) : cstate := fold_left (apply_gate p) gs s.
 Definition csem (c : ccirc) (p : cparams) : cstate := run_gates p (snd c) [0%N].
 Definition ccompose (a c : ccirc) : ccirc := (Nat.max (fst a) (fst c), snd a ++ snd c).
+Definition capply (c : ccirc) (p : cparams) (s : cstate) : cstate := run_gates p (snd c) s.
 
 Definition permq (pi : clayout) (q : N) : N := fold_left (fun q ab => transp (fst ab) (snd ab) q) pi q.
 Definition permN (pi : clayout) (x : N) : N := fold_left (fun x ab => swapbits (fst ab) (snd ab) x) pi x.
@@ -114,6 +115,51 @@ Definition cbitfun : Type := list Q.
 Fixpoint int_of (k : coutcome) : nat := match k with [] => 0 | b :: t => (if b then 1 else 0) + 2 * int_of t end.
 Definition cagg_bits (f : cbitfun) (alpha : Q) (qd : list (coutcome * Q)) : Q :=
   cvar alpha (map (fun kp => (nth (int_of (fst kp)) f 0, snd kp)) qd).
+
+(* ---- well-formedness: the inputs on which the total functions above describe Qiskit ----
+   The functions of this file are total and use defaults (a missing parameter reads as 0, a missing table entry as 0,
+   counts are floor(shots * p), H on a touched qubit is computed as on a fresh one).  The laws and theorems hold for all
+   inputs; they MEAN Qiskit's behaviour only where no default is used.  wf_call / wf_sampler_call / wf_table say so
+   explicitly; they are premises of the classical theorems in Props/C03.v, and EvalCheck.check_case fails for a case that
+   violates them (so every generated case is asserted to satisfy them on every run). *)
+Definition qubit_ok (n : nat) (q : N) : bool := (N.to_nat q <? n)%nat.
+Definition touched (q : N) (t : list N) : bool := existsb (N.eqb q) t.
+(* returns the touched qubits after the gates, None if some gate is ill-formed: qubit out of range, parameter index out of
+   range, control = target, H on a qubit that is not fresh *)
+Fixpoint wf_gates (n np : nat) (t : list N) (gs : list gate) : option (list N) :=
+  match gs with
+  | [] => Some t
+  | g :: gs' =>
+      match g with
+      | GX q => if qubit_ok n q then wf_gates n np (q :: t) gs' else None
+      | GCX c x => if qubit_ok n c && qubit_ok n x && negb (c =? x)%N then wf_gates n np (c :: x :: t) gs' else None
+      | GSWAP a b => if qubit_ok n a && qubit_ok n b && negb (a =? b)%N then wf_gates n np (a :: b :: t) gs' else None
+      | GRX j q => if (j <? np)%nat && qubit_ok n q then wf_gates n np (q :: t) gs' else None
+      | GH q => if qubit_ok n q && negb (touched q t) then wf_gates n np (q :: t) gs' else None
+      end
+  end.
+(* one evaluate_circuits call: np parameters per circuit; the initial-state circuit has none and the same width *)
+Definition wf_call (np : nat) (init : option ccirc) (circuits : list ccirc) (pvals : list cparams) : bool :=
+  (length circuits =? length pvals)%nat
+  && forallb (fun p : cparams => (length p =? np)%nat) pvals
+  && match init with
+     | None => forallb (fun c : ccirc => match wf_gates (fst c) np [] (snd c) with Some _ => true | None => false end) circuits
+     | Some a =>
+         match wf_gates (fst a) 0 [] (snd a) with
+         | None => false
+         | Some t => forallb (fun c : ccirc => (fst c =? fst a)%nat
+                                              && match wf_gates (fst c) np t (snd c) with Some _ => true | None => false end) circuits
+         end
+     end.
+(* the exact sampler's counts are exact: shots * multiplicity is divisible by the number of support elements *)
+Definition counts_exact (shots : Z) (d : cdist) : bool :=
+  (0 <? shots)%Z && negb (length d =? 0)%nat
+  && forallb (fun k => (shots * occurrences k d mod Z.of_nat (length d) =? 0)%Z) (dedup d).
+Definition wf_sampler_call (shots : Z) (init : option ccirc) (circuits : list ccirc) (pvals : list cparams) : bool :=
+  forallb (fun cp : ccirc * cparams =>
+             let c := with_init ccompose init (fst cp) in counts_exact shots (cread (cwid c) (csem c (snd cp))))
+          (combine circuits pvals).
+Definition wf_table (n : nat) (f : list Q) : bool := (length f =? 2 ^ n)%nat.
 
 (* pass managers of the instance: place virtual qubit q on position (permq pi q), then append swaps (routing);
    the reported layout is pi followed by the swaps *)
